@@ -119,8 +119,8 @@ def cands : List String → Val → R (List (Option Val))
 /-- a key the model follows: non-empty components only -/
 def keyOk (key : String) : Bool := (splitDots key).all (· ≠ "")
 
-/-- every dot-separated component of the key, the empty one included, is a field name
-    (`''` looks the field named `''` up, `'a.'` the field `''` inside `a`) -/
+/-- `iter_key_candidates(key, doc)`: every dot-separated component of the key, the empty one
+    included, is a field name (`''` is the field named `''`, `'a.'` the field `''` inside `a`). -/
 def candsKey (key : String) (d : Val) : R (List (Option Val)) :=
   cands (splitDots key) d
 
